@@ -487,6 +487,19 @@ impl<'a> Tr<'a> {
                     // an uninitialised slot is `none`
                     "MaybeUninit" if targs.len() == 1 => Ty::Option(Box::new(self.conv_ty(targs[0]))),
                     "PhantomData" => Ty::Unit,
+                    // `core::marker::PhantomPinned`: a unit struct (one value)
+                    "PhantomPinned" if !self.reg.structs.contains_key("PhantomPinned") => Ty::Unit,
+                    // `core::ops::Range<T> { pub start: T, pub end: T }` is the pair `(start, end)`;
+                    // `core::ops::RangeInclusive<T> { start: T, end: T, exhausted: bool }` (private fields, read through
+                    // `start()` / `end()`) is the triple `(start, end, exhausted)` — the shapes of `Model/Cmp.lean`
+                    "Range" if targs.len() == 1 && !self.reg.structs.contains_key("Range") => {
+                        let t = self.conv_ty(targs[0]);
+                        Ty::Tuple(vec![t.clone(), t])
+                    }
+                    "RangeInclusive" if targs.len() == 1 && !self.reg.structs.contains_key("RangeInclusive") => {
+                        let t = self.conv_ty(targs[0]);
+                        Ty::Tuple(vec![t.clone(), t, Ty::Bool])
+                    }
                     // a CStr is modelled as its bytes including the terminating nul
                     "CStr" => Ty::Slice(Box::new(Ty::Int(IntTy::U8))),
                     "PatternNorm" => Ty::Slice(Box::new(Ty::Int(IntTy::U8))),
@@ -807,6 +820,9 @@ impl<'a> Tr<'a> {
                 match (&from, &to) {
                     (Ty::Bool, Ty::Int(t)) if !t.signed => Ok("Rs.boolToNat".into()),
                     (Ty::Bool, Ty::Int(_)) => Ok("Int.ofNat <| Rs.boolToNat".into()),
+                    // `core::cmp::Ordering` is `#[repr(i8)] enum { Less = -1, Equal = 0, Greater = 1 }`: the cast to a signed
+                    // integer type is the discriminant (it fits every signed width)
+                    (Ty::Ordering, Ty::Int(t)) if t.signed => Ok("Rs.orderingToInt".into()),
                     (Ty::Char, Ty::Int(t)) if !t.signed && t.bits >= 32 => Ok("id".into()),
                     (Ty::Char, Ty::Int(t)) if !t.signed => Ok(format!("Rs.castUU {}", t.bits)),
                     (Ty::Int(f), Ty::Char) if !f.signed && f.bits == 8 => Ok("id".into()),
